@@ -431,3 +431,87 @@ def _partial_enum_conversions(ci: ClassInfo) -> List[Tuple[FuncUnit, ast.Call]]:
             if not caught:
                 out.append((m, c))
     return out
+
+
+def rule_source_and_ids(ctx: Ctx, out: Collector) -> None:
+    """VW-7: the source link of a node built by build_node from another build_node node is computed from the class that has a
+    source (the chain of __generic_class__ is followed to its end).  VW-8: the edge id is an injective function of the pair
+    (source, target).  Both are decided by interpreting the code over small worlds."""
+    from ..absint import AObj, ARaise, Interp, Oracle, TOP, enumerate_outcomes
+    p = ctx.p
+    ci = _config_class(ctx)
+    target = None
+    for m in ci.methods.values():
+        if any(isinstance(n, ast.Call) and (dotted(n.func) or '').split('.')[-1] in ('getsourcelines', 'findsource', 'getsourcefile')
+               for n in ast.walk(m.node)):
+            target = m
+    if target is None:
+        raise AnalysisError('the function computing the source link of a node was not found (VW-7 anchor vanished)')
+    table = {}
+    problems = []
+    for depth in (0, 1, 2, 3):
+        def run(oracle: Oracle, depth=depth):
+            asked = []
+
+            def src(a, k):
+                asked.append(a[0])
+                if isinstance(a[0], AObj) and a[0].attrs.get('__generic_class__') is not None:
+                    raise ARaise('OSError (a class created by type() has no source)')
+                return (TOP, 10)
+            node = AObj(('ext', 'created-class'), {'__module__': 'user.base', '__name__': 'Base', '__generic_class__': None}, tag='Base')
+            for i in range(depth):
+                node = AObj(('ext', 'created-class'), {'__module__': 'ml_pipeline_engine.node.node', '__name__': f'G{i}',
+                                                       '__generic_class__': node}, tag=f'G{i}')
+            interp = Interp(p, oracle, ext_stubs={'inspect.getsourcelines': src, 'inspect.findsource': src,
+                                                  'inspect.getsourcefile': lambda a, k: (asked.append(a[0]), 'user/base.py')[1]})
+            res = interp.call_unit(target, [node], {}, None if target.is_static else AObj(ci, {}))
+            return res, [getattr(a, 'tag', repr(a)) for a in asked]
+        outs = enumerate_outcomes(run)
+        got = sorted({(str(o[1][0]), tuple(o[1][1])) if o[0] == 'value' else ('raises ' + str(o[1]), ()) for o in outs})
+        table[f'{depth} level(s) of build_node'] = [f'{r} (source of {list(a)})' for r, a in got]
+        for r, asked in got:
+            if r.startswith('raises') or any(a != 'Base' for a in asked) or (r != str(TOP) and 'user/base' not in r):
+                problems.append(f'{depth} level(s) of build_node: {r}' + (f', source asked of {list(asked)}' if asked else ''))
+    cons = f'{target.module.name}::{target.qualname}::the source link follows the chain of generic classes to the class that has a source [generic-chain]'
+    if not problems:
+        out.ok('VW-7', cons, p.loc(target, target.node), '0..3 levels of build_node', table=table)
+    else:
+        out.bad('VW-7', cons, p.loc(target, target.node), 'generating the description of a buildable pipeline fails (or links the wrong file) for a '
+                'node made by build_node from a build_node node: ' + '; '.join(problems[:3]), table=table)
+    # ---- VW-8
+    for sc in p.classes_by_name.get('Edge', []):
+        if not sc.module.name.endswith('visualization.schema'):
+            continue
+        post = sc.methods.get('__post_init__')
+        if post is None:
+            raise AnalysisError('schema.Edge has no __post_init__ computing the id (VW-8 anchor vanished)')
+        seps = sorted({v.value for n in ast.walk(post.node) if isinstance(n, ast.JoinedStr) for v in n.values
+                       if isinstance(v, ast.Constant) and isinstance(v.value, str) and v.value} |
+                      {n.value for n in ast.walk(post.node) if isinstance(n, ast.Constant) and isinstance(n.value, str) and n.value
+                       and len(n.value) <= 4}) or ['']
+        seps.append('')
+        collisions = []
+        undecided = False
+        for sep in seps:
+            pair_a, pair_b = ('x' + sep + 'y', 'z'), ('x', 'y' + sep + 'z')
+            ids = []
+            for s_, t_ in (pair_a, pair_b):
+                def run(oracle: Oracle, s_=s_, t_=t_):
+                    e = AObj(sc, {'source': s_, 'target': t_, 'id': None})
+                    Interp(p, oracle).call_unit(post, [], {}, e)
+                    return e.attrs.get('id')
+                outs = enumerate_outcomes(run)
+                vals = {o[1] if o[0] == 'value' else 'raises' for o in outs}
+                if len(vals) != 1 or TOP in vals:
+                    undecided = True
+                ids.append(next(iter(vals)))
+            if not undecided and ids[0] == ids[1]:
+                collisions.append(f'{pair_a} and {pair_b} both get the id {ids[0]!r}')
+        if undecided:
+            raise AnalysisError('the edge id computed by schema.Edge.__post_init__ could not be evaluated (VW-8 undecided)')
+        cons = f'{sc.module.name}::Edge::the id is an injective function of (source, target) [edge-id-injective]'
+        if not collisions:
+            out.ok('VW-8', cons, p.loc(sc.module, sc.node), f'{len(seps)} separator worlds')
+        else:
+            out.bad('VW-8', cons, p.loc(sc.module, sc.node), 'node names are free text; the edge id is the two node ids joined by a separator '
+                    'that may occur in them, so two different DAG edges can get the same id: ' + collisions[0])
